@@ -204,6 +204,10 @@ func (s *servers) handleIntrospect(w http.ResponseWriter, r *http.Request) {
 			resp["aud"] = []string{"aud-other"}
 		case "nosub":
 			delete(resp, "sub")
+		case "nbfoutofrange":
+			resp["nbf"] = extremeDate(false, saltOf(tok))
+		case "expoutofrange":
+			resp["exp"] = extremeDate(true, saltOf(tok))
 		default:
 			resp = inactive
 		}
